@@ -162,7 +162,7 @@ Definition lex_next (l0 : lexer) : lex_result :=
         match lookup_op1 op1_table c with
         | Some t => LexTok (simple t pos) l1
         | None =>
-          if (N.eqb c 39 || N.eqb c 34)%bool then lex_string c l1
+          if existsb (N.eqb c) quote_chars then lex_string c l1
           else LexErr pos l1                     (* l.pos-1 *)
         end
       end
